@@ -94,8 +94,77 @@ def c19_declared(boot):
     return violations, checked
 
 
+def c13_sweep(boot):
+    """Exhaustive over one boot: every registered prefix x every unit that has a symbol x
+    exponents {1,-1,2,-2,3}: str() then Unit.parse must give the same object (or an equal
+    named unit); renderings in the known classes are reported under their class."""
+    import measured as L
+
+    from sim.clauses_c13 import render_class
+    from sim.world_a import Interp
+
+    I = Interp(boot, "none")
+    sizes = getattr(boot, "shipped_sizes", None) or {}
+    violations, seen = [], set()
+    counters = {"C13.sweep.checked": 0, "C13.sweep.ok": 0}
+
+    def size(nf):
+        from fractions import Fraction
+        v = M.p_value(nf[0])
+        v = v if isinstance(v, Fraction) else Fraction(v)
+        for t, e in nf[1]:
+            if t not in sizes:
+                return None
+            v *= Fraction(sizes[t]) ** e
+        return v
+
+    def bad(sig, detail):
+        if sig not in seen:
+            seen.add(sig)
+            violations.append({"clause": "C13.roundtrip", "signature": sig, "step": 0, "detail": detail})
+        counters[sig.split(":")[0]] = counters.get(sig.split(":")[0], 0) + 1
+
+    prefixes = [L.IdentityPrefix] + [p for _, p in sorted(L.Prefix._by_name.items())]
+    units = [u for s_, u in sorted(L.Unit._by_symbol.items()) if u.symbol == s_]
+    for p in prefixes:
+        for u in units:
+            for e in (1, -1, 2, -2, 3):
+                try:
+                    x = (p * u) ** e
+                    text = str(x)
+                except Exception as ex:
+                    bad("C13/render-raised/%s" % type(ex).__name__, {"prefix": p.name, "unit": u.name, "e": e})
+                    continue
+                counters["C13.sweep.checked"] += 1
+                cls = render_class(I, x) or "plain"
+                try:
+                    y = L.Unit.parse(text)
+                except Exception as ex:
+                    bad("C13/unparseable/%s" % cls, {"text": text, "prefix": p.name, "unit": u.name, "e": e,
+                                                      "error": type(ex).__name__})
+                    continue
+                if y is x:
+                    counters["C13.sweep.ok"] += 1
+                    continue
+                a, b = I.nf_of(x), I.nf_of(y)
+                ok = False
+                if a is not None and b is not None and tuple(x.dimension.exponents) == tuple(y.dimension.exponents):
+                    sa, sb = size(a), size(b)
+                    ok = sa is not None and sb is not None and abs(float(sa / sb) - 1.0) <= 1e-9
+                if ok:
+                    counters["C13.sweep.equal-named-unit"] = counters.get("C13.sweep.equal-named-unit", 0) + 1
+                else:
+                    bad("C13/different/%s" % cls, {"text": text, "of": M.nf_str(a), "parsed": M.nf_str(b)})
+    return violations, counters
+
+
 def run(req, boot):
     what = req["what"]
+    if what == "c13_sweep":
+        violations, counters = c13_sweep(boot)
+        log = [canon({"counters": counters, "violations": sorted(v["signature"] for v in violations)})]
+        return {"digest": digest(log), "n_ops": counters["C13.sweep.checked"], "violations": violations,
+                "counters": counters, "probes": {}, "faults_fired": {}}
     if what == "c19_declared":
         violations, checked = c19_declared(boot)
         log = [canon({"checked": checked, "violations": sorted(v["signature"] for v in violations)})]
